@@ -75,13 +75,13 @@ type worker struct {
 }
 
 type controller struct {
-	tree    *ctree.Tree
-	ws      []*worker
-	mu      sync.Mutex
-	byGoid  map[int64]*worker
-	steps   []SStep
-	hung    bool
-	timeout time.Duration
+	tree     *ctree.Tree
+	ws       []*worker
+	mu       sync.Mutex
+	byGoid   map[int64]*worker
+	steps    []SStep
+	hung     bool
+	timeout  time.Duration
 	lastDump string
 }
 
@@ -132,6 +132,34 @@ func newController(prog []SOp) *controller {
 
 func cpPath(p []string) []string { return append([]string{}, p...) }
 
+// The tree stores any interface{}: half of the workloads store the numbers as
+// they are (comparable), the other half wrapped in a struct with a slice field
+// (an UNCOMPARABLE dynamic type: == on two of them panics at run time).
+// boxed is set before the goroutines of a workload / schedule are started.
+var boxed bool
+
+type box struct {
+	n   int64
+	pad []byte
+}
+
+func mkval(x int64) interface{} {
+	if boxed {
+		return box{n: x, pad: []byte{1}}
+	}
+	return x
+}
+
+func unval(v interface{}) (int64, bool) {
+	switch x := v.(type) {
+	case int64:
+		return x, !boxed
+	case box:
+		return x.n, boxed
+	}
+	return 0, false
+}
+
 func (c *controller) runOp(w *worker) (res Res) {
 	defer func() {
 		if r := recover(); r != nil {
@@ -163,23 +191,22 @@ func (c *controller) runOp(w *worker) (res Res) {
 func applyOp(t *ctree.Tree, o SOp, handle *ctree.Leaf, park func()) Res {
 	switch o.K {
 	case "add":
-		err := t.Add(o.P, o.V)
+		err := t.Add(o.P, mkval(o.V))
 		return Res{Kind: "add", OK: err == nil}
 	case "getval":
 		v := t.GetLeafValue(o.P)
-		switch x := v.(type) {
-		case nil:
+		if v == nil {
 			return Res{Kind: "val"}
-		case int64:
-			return Res{Kind: "val", Has: true, V: x}
-		default:
-			// a branch's map is not a value: Tree.Value returns nil for branches
-			panic(fmt.Sprintf("GetLeafValue returned %T", v))
 		}
+		if x, ok := unval(v); ok {
+			return Res{Kind: "val", Has: true, V: x}
+		}
+		// a branch's map is not a value: Tree.Value returns nil for branches
+		panic(fmt.Sprintf("GetLeafValue returned %T", v))
 	case "query":
 		var ls []LeafObs
 		err := t.Query(o.P, func(path []string, _ *ctree.Leaf, val interface{}) error {
-			x, ok := val.(int64)
+			x, ok := unval(val)
 			if !ok {
 				panic(fmt.Sprintf("visited a non-value %T", val))
 			}
@@ -200,7 +227,7 @@ func applyOp(t *ctree.Tree, o SOp, handle *ctree.Leaf, park func()) Res {
 		var seen []LeafObs
 		errStop := fmt.Errorf("visitor says stop")
 		err := t.Query(o.P, func(path []string, _ *ctree.Leaf, val interface{}) error {
-			x, ok := val.(int64)
+			x, ok := unval(val)
 			if !ok {
 				panic(fmt.Sprintf("visited a non-value %T", val))
 			}
@@ -234,7 +261,7 @@ func applyOp(t *ctree.Tree, o SOp, handle *ctree.Leaf, park func()) Res {
 		var seen []LeafObs
 		errStop := fmt.Errorf("visitor says stop")
 		vf := func(path []string, _ *ctree.Leaf, val interface{}) error {
-			x, ok := val.(int64)
+			x, ok := unval(val)
 			if !ok {
 				panic(fmt.Sprintf("visited a non-value %T", val))
 			}
@@ -276,7 +303,7 @@ func applyOp(t *ctree.Tree, o SOp, handle *ctree.Leaf, park func()) Res {
 		// WalkDeleted reports removed values only; the scenarios that use it give
 		// every add / paused update its own value, so the values name the paths
 		var vals []int64
-		t.WalkDeleted(o.P, func(interface{}) bool { return true }, func(x interface{}) { vals = append(vals, x.(int64)) })
+		t.WalkDeleted(o.P, func(interface{}) bool { return true }, func(x interface{}) { y, _ := unval(x); vals = append(vals, y) })
 		out := make([][]string, len(vals))
 		for i, v := range vals {
 			out[i] = []string{fmt.Sprint(v)}
@@ -292,9 +319,9 @@ func applyOp(t *ctree.Tree, o SOp, handle *ctree.Leaf, park func()) Res {
 	case "hold":
 		if handle != nil {
 			if park != nil {
-				handle.VerifUpdatePaused(o.V, park)
+				handle.VerifUpdatePaused(mkval(o.V), park)
 			} else {
-				handle.Update(o.V)
+				handle.Update(mkval(o.V))
 			}
 		}
 		return Res{Kind: "unit"}
@@ -498,6 +525,12 @@ func runSchedule(prog []SOp, sched []int, complete bool) SchedResult {
 }
 
 func runScheduleOnce(prog []SOp, sched []int, complete bool) SchedResult {
+	// value type of this execution: a function of the schedule (replayable)
+	h := len(sched)
+	for _, x := range sched {
+		h += x
+	}
+	boxed = h%2 == 1
 	c := newController(prog)
 	active.Store(c)
 	defer active.Store(nil)
@@ -528,7 +561,7 @@ func runScheduleOnce(prog []SOp, sched []int, complete bool) SchedResult {
 	if all {
 		active.Store(nil)
 		_ = c.tree.Walk(func(path []string, _ *ctree.Leaf, val interface{}) error {
-			if x, ok := val.(int64); ok {
+			if x, ok := unval(val); ok {
 				out.Final = append(out.Final, LeafObs{P: cpPath(path), V: x})
 			} else {
 				out.Final = append(out.Final, LeafObs{P: cpPath(path), V: -999})
